@@ -24,12 +24,13 @@ for k in sorted(pinned):
 rows.append("\nC04, C07, C08, C13, C14, C15, C18 held on the pinned tree (no defect of theirs is known).\n")
 
 rows.append("### Reverse patches of the `fix:` commits (mutants/revert-*), applied to the current tree\n")
-rows.append("| mutant | own property | caught by (quick) |\n|---|---|---|")
+rows.append("| mutant | own property | own check at the current commit (tools/reverify_seeds.py) | all checks that caught it when first recorded |\n|---|---|---|---|")
 for d in sorted(glob.glob("/verif/mutants/revert-*")):
     r = os.path.join(d, "result.json")
     if os.path.exists(r):
-        j = json.load(open(r))
-        rows.append("| %s | %s | %s |" % (os.path.basename(d), j.get("property"), ", ".join("%s (%s)" % (k, "; ".join(v[:2])) for k, v in sorted(j.get("caught_by", {}).items())) or "-"))
+        j = json.load(open(r)); m = json.load(open(os.path.join(d, "meta.json")))
+        rv = j.get("reverified", {})
+        rows.append("| %s | %s | %s (%s) at %s | %s |" % (os.path.basename(d), m.get("property"), rv.get("own_check", "-"), "; ".join(rv.get("signatures", [])[:2]), rv.get("repo_commit", "-"), ", ".join(sorted(j.get("caught_by", {}))) or "-"))
 
 rows.append("\n### Hand-written mutants from the properties' hints (mutants/hint-*)\n")
 rows.append("One textual replacement each (tools/make_hint_mutants.py). 'suite fails' = the existing tests already notice it, so it is not a change the checks are needed for (kept for the record). 'equivalent' = on inspection the change cannot alter anything a given property talks about.\n")
@@ -53,22 +54,30 @@ for d in sorted(glob.glob("/verif/mutants/hint-*")):
     ok = j.get("confirm", "").startswith("ok")
     rows.append("| %s | %s | %s | %s | %s | %s |" % (os.path.basename(d), m.get("summary", ""), "passes" if ok else "suite fails", "yes" if j.get("caught_by_own_property_check") else "no", ", ".join(sorted(j.get("caught_by", {}))) or "-", notes.get(os.path.basename(d), "")))
 
-rows.append("\n### Independent seeded changes (seeded/), two per property\n")
-rows.append("| seed | what it changes | needs | caught by own check | all checks that caught it |\n|---|---|---|---|---|")
-n = own = 0
+rows.append("\n### Independent seeded changes (seeded/), ten per property in six rounds\n")
+rows.append("'when recorded' = with the harness and the commit of /repo of that time, all 20 quick checks; 're-measured' = own check only, by tools/reverify_seeds.py with the current harness at the commit named (patches that a later `fix:` commit moved under were rebased first; the original is kept as patch.at-<commit>.diff).\n")
+rows.append("| seed | what it changes | needs | caught by own check when recorded | all checks that caught it when recorded | re-measured |\n|---|---|---|---|---|---|")
+n = own = rown = retired = 0
 for d in sorted(glob.glob("/verif/seeded/C*")):
     m = json.load(open(os.path.join(d, "meta.json")))
-    n += 1
-    own += 1 if m.get("caught_by_own_property_check") else 0
     cb = m.get("caught_by", {})
     def clean(t):
         return re.sub(r"\s+", " ", str(t)).replace("|", "/")[:230]
-    rows.append("| %s | %s | %s | %s | %s |" % (os.path.basename(d), clean(m.get("summary")), clean(m.get("needs_to_manifest")), "yes (%s)" % "; ".join(cb.get(m["property"], [])[:2]) if m.get("caught_by_own_property_check") else "NO", ", ".join(sorted(cb))))
-rows.append("\n%d seeded changes, %d caught by the check of their own property (quick tier), all confirmed by `tools/try_seed.sh` before being kept.\n" % (n, own))
+    rv = m.get("reverified", {})
+    if m.get("retired"):
+        retired += 1
+        rem = "RETIRED: " + clean(m["retired"])
+    else:
+        n += 1
+        own += 1 if m.get("caught_by_own_property_check") else 0
+        rown += 1 if rv.get("own_check") == "caught" and rv.get("confirm", "").startswith("ok") else 0
+        rem = "%s at %s (%s)" % (rv.get("own_check", "-"), rv.get("repo_commit", "-"), "; ".join(rv.get("signatures", [])[:2]))
+    rows.append("| %s | %s | %s | %s | %s | %s |" % (os.path.basename(d), clean(m.get("summary")), clean(m.get("needs_to_manifest")), "yes (%s)" % "; ".join(cb.get(m["property"], [])[:2]) if m.get("caught_by_own_property_check") else "NO", ", ".join(sorted(cb)), rem))
+rows.append("\n%d seeded changes in use (+ %d retired because a repair of the tree neutralised it): %d were caught by the check of their own property when recorded, %d when re-measured against the current commit with the current harness; all confirmed by `tools/try_seed.sh` (compiles with and without hooks, unedited suite passes, demonstration fails with the change and passes without it).\n" % (n, retired, own, rown))
 rows.append(open("/verif/tools/strengthened.md").read() if os.path.exists("/verif/tools/strengthened.md") else "")
 s = open("/verif/DESIGN.md").read()
 a = s.index("<!-- SEED-TABLE-BEGIN -->") + len("<!-- SEED-TABLE-BEGIN -->")
 b = s.index("<!-- SEED-TABLE-END -->")
 s = s[:a] + "\n" + "\n".join(rows) + "\n" + s[b:]
 open("/verif/DESIGN.md", "w").write(s)
-print("table written:", n, "seeds", own, "own-caught")
+print("table written:", n, "seeds", own, "own-caught when recorded,", rown, "when re-measured,", retired, "retired")
